@@ -74,7 +74,7 @@ def gen_program(rng, *, mode="reliable", heavy=False, long=False):
 
 
 def run_program(prog, rng, *, origins=None, relay=False, spec_ab=None, spec_ba=None, probe=True,
-                record_wire=False, keep_rig=False, post_hook=None):
+                record_wire=False, keep_rig=False, post_hook=None, pre_hook=None):
     rig = SctpRig(rng, heal=prog["heal"], heavy=prog.get("heavy", False), relay=relay, origins=origins,
                   spec_ab=spec_ab, spec_ba=spec_ba, record_wire=record_wire)
     try:
@@ -94,6 +94,7 @@ def run_program(prog, rng, *, origins=None, relay=False, spec_ab=None, spec_ba=N
                 create(c)
             else:
                 rig.at(c["t"], create, c)
+        pre_hook_ok = pre_hook(rig) if pre_hook is not None else None
         for name, t in prog["start"].items():
             rig.at(t, rig.start, eps[name])
 
@@ -106,7 +107,16 @@ def run_program(prog, rng, *, origins=None, relay=False, spec_ab=None, spec_ba=N
             rig.at(s[0], do_send, s)
         for s in prog["post"]:
             rig.at(s[0], do_send, s)
-        end_actions = max([prog["heal"] + 3.0] + [s[0] for s in prog["sends"]] + [s[0] for s in prog["post"]]) + 0.5
+
+        def do_close(c):
+            chan = rig.chans.get(f"c{c[2]}")
+            if chan is not None:
+                rig.close_channel(eps[c[1]], chan)
+
+        for c in prog.get("closes", []):
+            rig.at(c[0], do_close, c)
+        end_actions = max([prog["heal"] + 3.0] + [s[0] for s in prog["sends"]] + [s[0] for s in prog["post"]]
+                          + [c[0] for c in prog.get("closes", [])]) + 0.5
         rig.run_until(end_actions)
         outcome = rig.drain()
         result = {"drain": outcome}
@@ -141,6 +151,8 @@ def run_program(prog, rng, *, origins=None, relay=False, spec_ab=None, spec_ba=N
                 rig.violation("exception", f"{te['type']}@{te['where']}",
                               f"task failed: {te['type']} at {te['where']}: {te['repr']}")
         result.update(rig.finish())
+        result["pre_hook_ok"] = pre_hook_ok
+        result["diag"] = rig.diagnostics()
         result["counters"] = dict(rig.counters)
         result["violations"] = list(rig.violations)
         result["events_tail"] = [list(map(str, e)) for e in list(rig.events)[-60:]]
